@@ -161,6 +161,17 @@ fn check(rep: &Report, ck: &str, c: &Case) -> CheckResult {
 }
 
 pub fn run(ctx: &Ctx, rep: &Report) -> Meta {
+    // the same checks with all workers released from one barrier in a cold process (shared state under contention)
+    {
+        let cases = (0..8usize).map(|k| Case { suite: if k % 2 == 0 { SuiteId::Sha256 } else { SuiteId::Shake256 }, key: KeySpec { fixture: false, ikm: BSpec { len: 32, class: 0, seed: k as u32 }, key_info: OptBytes::None, key_dst: OptBytes::None }, header: OptBytes::None, msgs: MsgVec { items: (0..[3usize, 20, 40, 70, 34, 9, 65, 17][k]).map(|j| BSpec { len: 5, class: 0, seed: (k * 100 + j) as u32 }).collect() }, steps: vec![Step { pos: 65000, val: BSpec { len: 4, class: 0, seed: 1 } }, Step { pos: 0, val: BSpec { len: 4, class: 0, seed: 2 } }], sweep: false }).collect::<Vec<_>>();
+        let r = contend("contention", ctx.workers.max(4), ctx.tier.pick(2, 6), |t, round| {
+            let c = &cases[(t * 7 + round * 3) % cases.len()];
+            check(rep, "contention", c)
+        });
+        if let Err(f) = r {
+            rep.add_violation(f);
+        }
+    }
     let tier = ctx.tier;
     run_cases(ctx, rep, "histories", ctx.tier.pick(300, 4000), 300, || strat(tier), |c| check(rep, "histories", c));
     // larger vectors: positions beyond 16 / 20
